@@ -21,6 +21,18 @@ Theorem C14_alias_stable : forall st path desired n st', tcinv st -> add_import 
 Proof. intros st path desired n st' I H. apply (add_import_inv _ _ _ _ _ I H). Qed.
 Print Assumptions C14_alias_stable.
 
+(* an import is never given a name the source package declares at package level, nor the name kessoku (the names
+   NewTypeConverter reserves before any import is added), and aliases stay consistent from such a start *)
+Theorem C14_reserved_names_never_used : forall rs reqs outs st, NoDup rs -> add_all (tc_reserved rs) reqs = Some (outs, st) ->
+  (forall p d n, In (p, d) reqs -> p <> sentinel n) ->
+  tcinv st /\ forall a, In a outs -> ~ In a rs.
+Proof. exact reserved_never_allocated. Qed.
+Print Assumptions C14_reserved_names_never_used.
+
+Example C14_reserved_example : option_map fst (add_all (tc_reserved ["kessoku"; "config"]) [("x/config", "config"); ("y/kessoku", "kessoku"); ("x/config", "config")])
+  = Some ["config_1"; "kessoku_1"; "config_1"].
+Proof. vm_compute. reflexivity. Qed.
+
 (* the collision loop terminates for every request *)
 Theorem C14_alias_total : forall st path desired, exists r, add_import st path desired = Some r.
 Proof. exact add_import_total. Qed.
